@@ -74,7 +74,11 @@ class Lifespan:
         if not self.supported:
             return
 
-        await self.app_send_channel.send({"type": "lifespan.startup"})
+        try:
+            await self.app_send_channel.send({"type": "lifespan.startup"})
+        except trio.ClosedResourceError:
+            return  # The app has already finished with the lifespan scope
+
         try:
             with trio.fail_after(self.config.startup_timeout):
                 await self.startup.wait()
